@@ -1680,6 +1680,10 @@ zisofs_read_data(struct archive_read *a,
 		memset(zisofs->uncompressed_buffer, 0,
 		    zisofs->uncompressed_buffer_size);
 		uncompressed_size = zisofs->uncompressed_buffer_size;
+	} else if (avail == 0) {
+		/* The input at hand ended with the block pointers: there is
+		 * nothing to give the decompressor yet, come back with more. */
+		uncompressed_size = 0;
 	} else {
 		zisofs->stream.next_in = (Bytef *)(uintptr_t)(const void *)p;
 		if (avail > zisofs->block_avail)
